@@ -216,7 +216,7 @@ def length_case(draw, tier):
     name = draw(st.sampled_from(LEN_NAMES))
     n = draw(st.sampled_from([0, -1, -8, 1, 2, 3, 4, 6, 7, 8, 9, 12, 15, 16, 17, 20, 24, 31, 32, 33, 48, 63, 64, 65, 80, 128]))
     return {'name': name, 'n': n, 'route': draw(st.sampled_from(['kw_length', 'kw_name', 'token', 'pack', 'pack_kwlen', 'dtype_build', 'setattr_name'])), 'cls': draw(cls_st),
-            'digits': draw(st.integers(0, 40)), 'seed': draw(st.integers(0, 10 ** 6))}
+            'digits': draw(st.integers(0, 40)), 'seed': draw(st.integers(0, 10 ** 6)), 'vform': draw(st.sampled_from(['bytes', 'bytes', 'bytearray', 'memoryview', 'list']))}
 
 
 def run_length(case):
@@ -237,6 +237,8 @@ def run_length(case):
         raw = format(case['seed'] % (1 << max(own, 1)), f'0{max(own, 1)}b')[:own] if own else ''
         if c == 'bytes':
             v = to_bytes(raw)
+            # the value may come as any bytes-like form (or a list of ints): same acceptance, same result
+            v = {'bytearray': bytearray, 'memoryview': memoryview, 'list': list}.get(case.get('vform'), bytes)(v)
             text = None
         elif c == 'bits':
             v = bs.Bits(bin=raw)
